@@ -64,6 +64,19 @@ CLAIMED.update({
             "constant-table membership + typed-AST wiring table; field-based taint analysis; separator-discipline rule", "§4 C08"),
 })
 
+CLAIMED.update({
+    "C04": ("Static decision of structural necessary conditions of AST fidelity: overflow guard of numeric rule parsing; rule-name <-> constraint wiring against the decoded stringer tables; the AST snapshot is stored before any compilation step and the rewriting steps run only under Compile; collectASTRules forwards every rule except the two documented special cases; each rule's AST value is rendered loss-free from the field holding its source text/value. Does not decide the source->tree homomorphism for nested lists, notes or child order.",
+            "SSA dominance/ordering checks, who-may-call checks over the VTA call graph, switch-table and data-source checks on the typed AST", "§4 C04"),
+    "C05": ("Static decision of structural necessary conditions of reference resolution: sibling agreement between every resolver (checker, compilers, example builder, OpenAPI) and the collector behind UsedUserTypes() on the set of reference positions read; the collector descends into every node kind with children; names are appended only when new (control dependence on the failed membership test); every failed type-table lookup raises ErrUserTypeNotFound. Does not decide the iff over all reference graphs.",
+            "resolved-call sibling agreement, interface-implementer enumeration, SSA control-dependence checks", "§4 C05"),
+    "C07": ("Static decision of structural necessary conditions of allOf inheritance: field coverage of constraint equality methods (AdditionalProperties.IsEqual ignores `mode`: known finding); inherited children are deep copies marked with their source; every Node.Copy re-creates constraints and children; required keys are propagated; the compile recursion guard is in test-insert-recurse-delete order; each documented refusal is raised on its guard; no map-order dependence. Does not decide the merged key set for arbitrary inheritance DAGs.",
+            "field-coverage and aliasing checks on the typed AST, statement-order checks, map-range classification", "§4 C07"),
+    "C17": ("Static decision: the enum scanner is extracted as a pushdown system (per-byte summaries, end-of-input table, pair tables) and its annotation-free fragment is compared in lock step with a reference recogniser for `[` JSON scalars without exponent `]`; the duplicate keys of rule files and inline enums are compared as symbolic functions; the literal classifier is order independent and agrees with its sibling; element accesses of the enum package are guarded. Does not decide annotations inside rule files nor verdict equality of `enum: @name` vs the inline list.",
+            "SSA partial evaluation per input byte -> pushdown system -> product with a reference recogniser; symbolic function comparison", "§4 C17"),
+    "C18": ("Static decision of structural necessary conditions for regex schemas: guarded first-byte reads (empty text gets a diagnostic); the delimiter loop body evaluated as a table over <escaped, byte class> (6 cells); schema text derived from a regex schema is quoted by JSON rules, not Go rules; AST value, Len and the OpenAPI pattern add/strip exactly one delimiter pair. Does not decide that the pattern is a valid regular expression nor that the example matches.",
+            "dominating-guard facts, mini AST evaluator for the loop-body table, constructor-argument quoting rule", "§4 C18"),
+})
+
 NOT_YET = {}
 
 NOT_APPLICABLE = {
